@@ -278,6 +278,56 @@ def scale_floor(geo, mask, stack, semi):
     return 0.01 * float(np.abs(stack).max()) / max(W, 1e-3)
 
 
+COND_MIN = 3e-2
+_COND = {"hook": True}
+
+
+def cond_ratio(dp, cfg):
+    """smallest non-zero |gamma_j(q)| relative to the largest, over all BF pixels and scan
+    frequencies (None if the per-pixel hook is not available).  ssb divides by |gamma_j| and obf by
+    sqrt(sum_j |gamma_j|^2): where gamma is analytically zero but numerically ~1e-6 (cancellation of
+    two O(1) float32 numbers) that quotient is rounding noise of O(1), and float32 kernels round
+    differently for different batch shapes.  Such inputs are ill-conditioned for EVERY schedule; they
+    are not used to judge batch invariance (the model run shows the skeleton still agrees)."""
+    kw = rkw(dict(cfg, kernel="obf"))
+    recd = hooked_contributions(dp, kw)
+    if recd is None or any(x[1] is None for x in recd):
+        _COND["hook"] = False
+        return None
+    g2 = np.array([x[1] for x in recd], np.float64)
+    mx = float(g2.max())
+    pos = g2[g2 > 0]
+    if mx <= 0 or pos.size == 0:
+        return 1.0
+    return math.sqrt(float(pos.min()) / mx)
+
+
+def gen_case(r, kernel, small=False, tweak=None):
+    """geometry + config; for the kernels that divide by |gamma| (ssb, obf) redraw until the case is
+    well-conditioned (see cond_ratio)"""
+    for attempt in range(12):
+        geo = gen_geometry(r, small=small)
+        cfg = gen_config(r, kernel)
+        if tweak:
+            tweak(geo, cfg)
+        if kernel not in ("ssb", "obf"):
+            return geo, cfg, None
+        dp, *_ = build(geo, aberr=cfg["aberr"])
+        c = cond_ratio(dp, cfg)
+        if c is None or c >= COND_MIN:
+            return geo, cfg, c
+    return geo, cfg, c
+
+
+def rt_batch(kernel):
+    """relative tolerance of the batch-size comparison: float32 results; observed 5e-7 (mf, prlx, icom) and
+    up to 3e-6 for well-conditioned ssb/obf; if the conditioning cannot be measured (hook renamed) the
+    ssb/obf tolerance is loosened to the noise ceiling of ill-conditioned inputs"""
+    if kernel in ("ssb", "obf"):
+        return 1e-4 if _COND["hook"] else 2e-2
+    return RT_BATCH
+
+
 def gen_config(r, kernel=None):
     k = kernel or r.choice(list(KERNELS))
     cfg = {"kernel": k, "u": r.choice([1, 1, 2, 3]), "flip": r.random() < 0.5,
@@ -325,7 +375,7 @@ def oracle_batch_alias(ctx, geo, cfg, replay_only=False):
     worst = 0.0
     for b in range(1, nbf + 1):
         got = rec(dp, **rkw(cfg, b=b))
-        ok, err = close(got, ref, RT_BATCH, scale)
+        ok, err = close(got, ref, rt_batch(cfg["kernel"]), scale)
         worst = max(worst, err)
         if not ok:
             out.append(("batch-size-dependence/%s" % cfg["kernel"],
@@ -334,7 +384,7 @@ def oracle_batch_alias(ctx, geo, cfg, replay_only=False):
             break
     for name in KERNELS[cfg["kernel"]][1:] + [cfg["kernel"].upper()]:
         got = rec(dp, **rkw(cfg, name=name, b=max(1, nbf // 2)))
-        ok, err = close(got, ref, RT_BATCH, scale)
+        ok, err = close(got, ref, rt_batch(cfg["kernel"]), scale)
         if not ok:
             out.append(("alias-differs/%s" % cfg["kernel"],
                         "kernel alias %r differs from %r by %.3g" % (name, cfg["kernel"], err), {"alias": name}))
@@ -438,7 +488,7 @@ def oracle_submask(ctx, geo, cfg, parts_l):
                 comb_imp += float(wimp[pm].sum()) * got.sum(0)
             continue
         ratio = float((got * ref).sum() / den)       # = W_full / W_part
-        ok, err = close(got, ratio * ref, RT_LIN, scale * max(abs(ratio), 1.0))
+        ok, err = close(got, ratio * ref, max(RT_LIN, rt_batch(cfg["kernel"])), scale * max(abs(ratio), 1.0))
         if not ok or not np.isfinite(ratio) or ratio <= 0:
             out.append(("submask-entry-mismatch/%s" % cfg["kernel"],
                         "kernel %s: images of sub-mask %d are not a common multiple of the matching images of the "
@@ -452,7 +502,7 @@ def oracle_submask(ctx, geo, cfg, parts_l):
             comb_imp += float(wimp[pm].sum()) * got.sum(0)
     tot = sum(inv_ratios) if inv_ratios is not None else 1.0
     worst = abs(tot - 1.0)
-    if abs(tot - 1.0) > RT_LIN * 10:
+    if abs(tot - 1.0) > max(RT_LIN * 10, rt_batch(cfg["kernel"])):
         out.append(("submask-weights-not-additive/%s" % cfg["kernel"],
                     "kernel %s: the weights W_part/W_full measured from the sub-mask results sum to %.6g, not 1"
                     % (cfg["kernel"], tot), {}))
@@ -460,7 +510,7 @@ def oracle_submask(ctx, geo, cfg, parts_l):
         if w is None:
             continue
         Wf = float(w[mask].sum())
-        ok, err = close(comb, Wf * full_bf, RT_LIN * 3, Wf * max(float(np.abs(full_bf).max()), scale))
+        ok, err = close(comb, Wf * full_bf, max(RT_LIN * 3, rt_batch(cfg["kernel"])), Wf * max(float(np.abs(full_bf).max()), scale))
         worst = max(worst, err)
         if not ok:
             out.append(("submask-recombination/%s" % cfg["kernel"],
@@ -791,11 +841,11 @@ def check_skeleton(ctx: Ctx):
     kinds = list(KERNELS) * ctx.budget(2, 12) + ["obf", "mf"]
     hook_missing = False
     for k in kinds:
-        geo = gen_geometry(r, small=True)
-        cfg = gen_config(r, k)
-        cfg["u"] = r.choice([1, 1, 2])
-        if geo["scan"][0] * geo["scan"][1] * cfg["u"] ** 2 * geo["nbf"] > 700:
-            cfg["u"] = 1
+        def tw(geo, cfg):
+            cfg["u"] = r.choice([1, 1, 2])
+            if geo["scan"][0] * geo["scan"][1] * cfg["u"] ** 2 * geo["nbf"] > 700:
+                cfg["u"] = 1
+        geo, cfg, _ = gen_case(r, k, small=True, tweak=tw)
         sc = skeleton_case(ctx, geo, cfg)
         if sc is None:
             hook_missing = True
@@ -834,7 +884,7 @@ def check_skeleton(ctx: Ctx):
             ctx.dist("model-run/%s/%s/u=%d" % (kind, cfg["kernel"], cfg["u"]))
             if math.isfinite(rel):
                 worst = max(worst, rel)
-            if not (rel <= RT_CORR):
+            if not (rel <= max(RT_CORR, rt_batch(cfg["kernel"]))):
                 nd += 1
                 ctx.cov["disagreements_checked"] += 1
                 b = meta["bsizes"][idx] if kind == "skeleton" else None
@@ -873,14 +923,12 @@ def run_oracles(ctx: Ctx):
     nrep = ctx.budget(5, 100)
     for rep in range(nrep):
         for k in KERNELS:
-            geo = gen_geometry(r)
-            cfg = gen_config(r, k)
-            if rep == 0:
-                cfg["u"] = 1
-            elif rep == 1:
-                cfg["u"] = 2
-            elif rep == 2:
-                cfg["u"] = 3
+            def tw(geo, cfg, rep=rep):
+                if rep < 3:
+                    cfg["u"] = rep + 1
+            geo, cfg, cnd = gen_case(r, k, tweak=tw)
+            if cnd is not None:
+                ctx.dist("conditioning/%s" % ("ok" if cnd >= COND_MIN else "ill-conditioned-kept"))
             found, err, nbf, scale = oracle_batch_alias(ctx, geo, cfg)
             worst["batch"] = max(worst["batch"], err if math.isfinite(err) else 0.0)
             ctx.count(("batch", json.dumps(geo, sort_keys=True), json.dumps(cfg, sort_keys=True)),
@@ -906,8 +954,7 @@ def run_oracles(ctx: Ctx):
     # --- sub-mask recombination (single-pass kernels)
     for rep in range(ctx.budget(4, 80)):
         for k in SINGLE_PASS:
-            geo = gen_geometry(r)
-            cfg = gen_config(r, k)
+            geo, cfg, _ = gen_case(r, k)
             parts = split_mask_weighted(r, geo, r.choice([2, 2, 3]))
             parts_l = [p.tolist() for p in parts]
             found, err = oracle_submask(ctx, geo, cfg, parts_l)
